@@ -66,7 +66,7 @@ pub fn gen(w: &mut impl Write, thorough: bool, seed: u64) {
     for n in 1..=17usize { let mut p = vec![0u8; n]; if n >= 8 { p[n - 8..].copy_from_slice(&EXIT); } emit(w, &p); let mut q = EXIT.to_vec(); q.truncate(n.min(8)); emit(w, &q); }
     // --- random: soups, mutated valid programs ------------------------------------------------------------
     let nrand = if thorough { 400_000 } else { 30_000 };
-    let cfg = GenCfg { max_len: 40, helpers: vec![1, 2, 0xffff_ffff], mem_len: 64, mbuff_len: 0, calls: true };
+    let cfg = GenCfg { max_len: 40, helpers: vec![1, 2, 0xffff_ffff], mem_len: 64, mbuff_len: 0, calls: true, engine_safe: false };
     for i in 0..nrand {
         match i % 4 {
             0 => { // soup of supported opcodes with small fields
